@@ -104,15 +104,74 @@ def main():
             out.append(outcome(lambda: blackbird.loads(item["text"])))
         elif kind == "load":
             out.append(outcome(lambda: blackbird.load(item["path"])))
+        elif kind == "pristine":
+            # every step in its own freshly forked child of this (otherwise untouched) interpreter
+            res = []
+            for step in item["steps"]:
+                r, w = os.pipe()
+                pid = os.fork()
+                if pid == 0:
+                    try:
+                        os.close(r)
+                        if "text" in step:
+                            o = outcome(lambda: blackbird.loads(step["text"]))
+                        else:
+                            o = outcome(lambda: blackbird.load(step["path"]))
+                        with os.fdopen(w, "w") as f:
+                            json.dump(o, f)
+                    finally:
+                        os._exit(0)
+                os.close(w)
+                with os.fdopen(r) as f:
+                    data = f.read()
+                os.waitpid(pid, 0)
+                res.append(json.loads(data) if data else {"out": "error", "cls": "ChildDied", "msg": ""})
+            out.append(res)
         elif kind == "history":
             # a sequence of loads in ONE process: every outcome is reported
             res = []
+            progs = []
             for step in item["steps"]:
-                if "text" in step:
-                    res.append(outcome(lambda: blackbird.loads(step["text"])))
-                else:
-                    res.append(outcome(lambda: blackbird.load(step["path"])))
-            out.append(res)
+                holder = []
+
+                def run(step=step, holder=holder):
+                    p = blackbird.loads(step["text"]) if "text" in step else blackbird.load(step["path"])
+                    holder.append(p)
+                    return p
+                res.append(outcome(run))
+                progs.append(holder[0] if holder else None)
+            # programs returned by different loads share no mutable state
+            def mutable_ids(x, acc, depth=0):
+                if depth > 12:
+                    return
+                if isinstance(x, (list, dict, set, np.ndarray)) or hasattr(x, "__dict__") and not isinstance(x, (sym.Basic, type)):
+                    if id(x) in acc:
+                        return
+                    acc.add(id(x))
+                if isinstance(x, dict):
+                    for v in x.values():
+                        mutable_ids(v, acc, depth + 1)
+                elif isinstance(x, (list, tuple, set)):
+                    for v in x:
+                        mutable_ids(v, acc, depth + 1)
+                elif isinstance(x, np.ndarray) and x.dtype == object:
+                    for v in x.reshape(-1):
+                        mutable_ids(v, acc, depth + 1)
+                elif hasattr(x, "__dict__") and not isinstance(x, (sym.Basic, type)):
+                    for v in vars(x).values():
+                        mutable_ids(v, acc, depth + 1)
+            sets = []
+            for p in progs:
+                acc = set()
+                if p is not None:
+                    mutable_ids(p, acc)
+                sets.append(acc)
+            shared = []
+            for i in range(len(sets)):
+                for j in range(i + 1, len(sets)):
+                    if sets[i] & sets[j]:
+                        shared.append([i, j])
+            out.append({"steps": res, "shared": shared})
         else:
             out.append({"out": "error", "cls": "BadRequest", "msg": kind})
     json.dump(out, sys.stdout)
